@@ -254,46 +254,50 @@ func (c *checkSchema) ensureShortcutKeysAreValid(node *schema.ObjectNode) error 
 }
 
 func actualRootType(s, root *schema.Schema) (json.Type, errors.Err) {
-	return actualRootTypeOf(s, root, map[string]struct{}{})
+	types := make(map[json.Type]struct{}, 2)
+	if err := collectRootTypes(s, root, map[string]struct{}{}, types); err != nil {
+		return json.TypeMixed, err
+	}
+	if len(types) == 1 { // all USER TYPES (example: @aaa | @bbb) have the same type (example: string)
+		for t := range types {
+			return t, nil
+		}
+	}
+	return json.TypeMixed, nil
 }
 
-// actualRootTypeOf visiting holds the names of the types on the current path: a
-// type list may lead back to a type being resolved (@node = @node | @leaf), that
-// alternative adds nothing to the set of possible types.
+// collectRootTypes collects the json-types of the types the schema stands for:
+// its own one, or, for a type list (@aaa | @bbb), those of the listed types.
+// visited holds the names of the types walked through already. Every type is
+// walked through once: a type list may lead back to a type being resolved
+// (@node = @node | @leaf) or to a type reached along another path (@a | @b where
+// @a itself lists @b), such an alternative adds nothing to the set of possible
+// types.
 //
 // Returns an error when a type on the way is not defined.
-func actualRootTypeOf(s, root *schema.Schema, visiting map[string]struct{}) (json.Type, errors.Err) {
+func collectRootTypes(s, root *schema.Schema, visited map[string]struct{}, types map[json.Type]struct{}) errors.Err {
 	t := s.RootNode().Type()
-	if t != json.TypeMixed {
-		return t, nil
+	n, ok := s.RootNode().(*schema.MixedValueNode)
+	if t != json.TypeMixed || !ok {
+		types[t] = struct{}{}
+		return nil
 	}
 
 	// mixed type for example: @aaa | @bbb
-	if n, ok := s.RootNode().(*schema.MixedValueNode); ok {
-		types := make(map[json.Type]struct{}, 2)
-		var tt json.Type
-		for _, tn := range n.GetTypes() {
-			if _, ok := visiting[tn]; ok {
-				continue
-			}
-			ss, err := root.Type(tn)
-			if err != nil {
-				return json.TypeMixed, err
-			}
-			visiting[tn] = struct{}{}
-			tt, err = actualRootTypeOf(ss, root, visiting)
-			delete(visiting, tn)
-			if err != nil {
-				return json.TypeMixed, err
-			}
-			types[tt] = struct{}{}
+	for _, tn := range n.GetTypes() {
+		if _, ok := visited[tn]; ok {
+			continue
 		}
-		if len(types) == 1 { // all USER TYPES (example: @aaa | @bbb) have the same type (example: string)
-			return tt, nil
+		ss, err := root.Type(tn)
+		if err != nil {
+			return err
+		}
+		visited[tn] = struct{}{}
+		if err := collectRootTypes(ss, root, visited, types); err != nil {
+			return err
 		}
 	}
-
-	return json.TypeMixed, nil
+	return nil
 }
 
 func (c *checkSchema) collectAllowedJsonTypes(node schema.Node, ss map[string]schema.Type) {
